@@ -11,7 +11,7 @@ import scipy.special
 from hypothesis import strategies as st
 
 from .. import oracles as orc
-from ..core import guarded
+from ..core import guarded, HarnessError
 
 ID = "C10"
 TECHNIQUE = ("Hypothesis-generated shifts and vibronic molecules/aggregates against closed-form Franck-Condon "
@@ -83,6 +83,8 @@ def _system(draw, big):
     case["fem_full"] = case["mult"] == 2 and n >= 2 and draw(st.booleans())
     # the aggregate is diagonalised before its (site-basis) operators are read
     case["diagonalize_first"] = draw(st.sampled_from([False, False, True]))
+    # units that are current when couplings between single states are asked for
+    case["coupling_units"] = draw(st.sampled_from([None, "1/cm", "eV"]))
     allm = [md for m in mols for md in m["modes"]]
     if allm and draw(st.sampled_from([False, False, True])):
         # strongly displaced mode with many levels in the excited state (one level in the ground state keeps the
@@ -361,3 +363,21 @@ def _system_check(case, ctx):
     ctx.close("aggregate/fc-factors", FCf, Fref, rtol=0, atol=1e-9)
     ctx.close("aggregate/hamiltonian", H, Href, rtol=1e-9, scale=escale, mult=mult)
     ctx.close("aggregate/dipole", D, Dref, rtol=0, atol=1e-9 * 3.0, mult=mult)
+
+    # ---- couplings asked for state by state, possibly while other energy units are current -----------------------
+    cunit = case.get("coupling_units") or "int"
+    pairs = [(a, b) for a in range(ns) for b in range(ns)
+             if a < b and states[a][0] != states[b][0] and sum(states[a][0]) == sum(states[b][0]) and Href[a, b] != 0.0][:8]
+    if pairs and n >= 2:
+        def direct():
+            sts = [st_ for _, st_ in agg.allstates(mult=mult)]
+            if len(sts) != ns:
+                raise HarnessError("allstates yields %d states, the aggregate has %d" % (len(sts), ns))
+            with qr.energy_units(cunit):
+                return [float(agg.coupling(sts[a], sts[b])) for a, b in pairs]
+        ok, got = guarded(ctx, "aggregate/coupling-of-states", direct, cunit)
+        if ok:
+            want = [float(orc.from_internal(Href[a, b], cunit)) for a, b in pairs]
+            ctx.close("aggregate/coupling-of-states", got, want, rtol=1e-9,
+                      scale=max(1e-300, max(abs(x) for x in want)), where="units=" + cunit, mult=mult)
+            ctx.label("coupling-of-states:" + cunit)
